@@ -32,15 +32,22 @@ type vVFS struct {
 	crashAt int // index of the VFS/file call at which the process dies (-1: none)
 	tmpSeq  int
 	log     []string
+	crashed bool // the process is dead: nothing reaches the disk any more
 }
 
 func newVFS() *vVFS { return &vVFS{failAt: -1, crashAt: -1} }
 
 func (v *vVFS) step(op string) error {
+	if v.crashed {
+		// deferred clean-up code still runs in the harness (a panic models the crash), but the
+		// process is dead: its calls have no effect
+		return vmodel.ErrFault
+	}
 	k := v.calls
 	v.calls++
 	v.log = append(v.log, op)
 	if k == v.crashAt {
+		v.crashed = true
 		panic(vCrash{})
 	}
 	if k == v.failAt {
@@ -191,8 +198,9 @@ func (v *vVFS) Rename(oldname, newname string) error {
 }
 
 type vWFile struct {
-	v *vVFS
-	n *vNode
+	v    *vVFS
+	n    *vNode
+	name string // like (*os.File).Name: the name it was created with
 }
 
 func (f *vWFile) Write(p []byte) (int, error) {
@@ -203,7 +211,7 @@ func (f *vWFile) Write(p []byte) (int, error) {
 	return len(p), nil
 }
 func (f *vWFile) Close() error { return f.v.step("close") }
-func (f *vWFile) Name() string { return f.n.path }
+func (f *vWFile) Name() string { return f.name }
 func (f *vWFile) Sync() error {
 	if err := f.v.step("sync"); err != nil {
 		return err
@@ -219,7 +227,7 @@ func (v *vVFS) TempFile(dir, prefix string) (WritableFile, error) {
 	v.tmpSeq++
 	n := &vNode{path: dir + "/" + prefix + string(rune('0'+v.tmpSeq))}
 	v.nodes = append(v.nodes, n)
-	return &vWFile{v: v, n: n}, nil
+	return &vWFile{v: v, n: n, name: n.path}, nil
 }
 
 func (v *vVFS) ReadDirNames(dir string) ([]string, error) {
